@@ -242,6 +242,11 @@ def call(ex, node, name, st):
         if len(facs) == 1 and isinstance(facs[0], SliceSeqV) and not node.keywords:
             return TupSeqV(facs[0].n, [facs[0]], "tuple")
         raise E.Unsupported(f"product of {len(facs)} factors")
+    if name == "set" and nargs == 1:
+        v = A(0)
+        if isinstance(v, TupV):
+            return ("sset", tuple(v.items))  # set(<fixed-length tuple>): its members, statically known
+        raise E.Unsupported(f"set() of a symbolic sequence line {node.lineno}")
     if name == "set" and nargs == 0:
         return ("sset", ())  # an empty set that is only ever extended with .add(x) and tested with `in`: a finite list
     if name in ("partition_all", "toolz.partition_all", "tlz.partition_all") and nargs == 2:
